@@ -88,7 +88,7 @@ def enc_val(v) -> str:
     if tn in _OBJ_CLASSES:
         cls, fields = _OBJ_CLASSES[tn]
         # hash values are the interpreter's (and randomised for str): the run-time's stand-in is 0
-        return "O" + tn + "{" + ",".join(f"{k}={'i0' if k == '_hash' else enc_val(getattr(v, k))}" for k in fields) + "}"
+        return "O" + tn + "{" + ",".join(f"{k}={'i0' if k == '_hash' else enc_val(getattr(v, k))}" for k in fields if hasattr(v, k)) + "}"
     if isinstance(v, tuple):
         return "U[" + ",".join(enc_val(x) for x in v) + "]"
     if isinstance(v, types.GeneratorType) or (hasattr(v, "__next__") and hasattr(v, "__iter__")):
@@ -855,6 +855,15 @@ def _g_marker_eq(rng):
     return [a, b]
 
 
+def _g_marker_init(rng):
+    from packaging import markers as MK
+    from gen import markers as G
+    text = _marker_text(rng)[2]
+    if rng.random() < 0.25:
+        text = G.damage(rng, text)
+    return _with_oracle("Marker.__init__", [object.__new__(MK.Marker), text])
+
+
 def _g_marker_evaluate(rng):
     from gen import markers as G
     pool, m = _marker_obj(rng)
@@ -1016,6 +1025,7 @@ FUNCS.update({
     "Marker.__eq__": ("packaging.markers", "Marker.__eq__", _g_marker_eq),
     "Marker.__hash__": ("packaging.markers", "Marker.__hash__", _g_marker_self),
     "Marker.evaluate": ("packaging.markers", "Marker.evaluate", _g_marker_evaluate),
+    "Marker.__init__": ("packaging.markers", "Marker.__init__", _g_marker_init),
 })
 FUNCS.update({n: ("packaging._parser", n, _g_parser_fn(n)) for n in PARSER_FUNCS})
 FUNCS.update({
@@ -1034,7 +1044,7 @@ FUNCS["canonicalize_license_expression"] = ("packaging.licenses", "canonicalize_
 # functions over a shared tokenizer: the answer is the result together with the tokenizer afterwards
 STATE_FUNCS = set(PARSER_FUNCS)
 # functions whose first wire argument is the oracle table (the real function runs against the real callees)
-EXT_FUNCS = {"_normalize_extra_values", "_eval_op", "_normalize", "_evaluate_markers", "Marker.evaluate"}
+EXT_FUNCS = {"_normalize_extra_values", "_eval_op", "_normalize", "_evaluate_markers", "Marker.evaluate", "Marker.__init__"}
 EXT_FUNCS |= {"_Validator._process_" + f for f in VALIDATOR_FIELDS if f not in ("metadata_version", "summary")}
 # functions run with `hash` replaced by a symbolic stand-in in their module (see PyRt.hash_sym)
 SYM_HASH_FUNCS = {"Marker.__hash__": "packaging.markers"}
@@ -1087,6 +1097,8 @@ class _Src:
                     r = f(*pos, **kw)
                 return "ok " + enc_val((r, pos[0]))
             r = f(*pos, **kw)
+            if name.endswith(".__init__"):
+                r = pos[0]                     # x3: the translated `__init__` hands back the initialised object
             return "ok " + enc_val(r)          # a generator's body runs here, inside the try
         except RecursionError:
             return core.RESOURCE_LIMIT
